@@ -305,3 +305,243 @@ def cap_scenarios(shapes, count, nops, seed):
                     lines.append(f"clear r{r}"); lens[r] = 0
         out.append(Scenario(sh, lines, "cap-random"))
     return out
+
+
+# ------------------------------------------------------------------ views (C05)
+
+def view_steps(rng_vals, depth, mutable):
+    """all single view operations on a view of length n (valid and invalid arguments)"""
+    raise NotImplementedError
+
+
+def view_ops_for(n, mutable):
+    """every view operation applicable to a window of length n, with the length of the resulting window
+    (None = terminal / panics / None result)"""
+    ops = []
+    for k in list(range(n + 2)):
+        for side in (0, 1):
+            ops.append((f"split_at:{k}:{side}", (k if side == 0 else n - k) if k <= n else None))
+    ops.append(("split_first:rest", n - 1 if n > 0 else None))
+    ops.append(("split_last:rest", n - 1 if n > 0 else None))
+    ops.append(("split_first:elem", None)); ops.append(("split_last:elem", None))
+    for a in range(n + 2):
+        for b in range(n + 2):
+            ops.append((f"range:{a}:{b}", b - a if a <= b <= n else None))
+    for a in range(n + 2):
+        ops.append((f"rangeto:{a}", a if a <= n else None))
+        ops.append((f"rangefrom:{a}", n - a if a <= n else None))
+        ops.append((f"get:{a}", None)); ops.append((f"idx:{a}", None))
+    ops.append(("first", None)); ops.append(("last", None))
+    ops.append(("reborrow", n))
+    if mutable:
+        ops.append(("as_ref", n)); ops.append(("as_slice", n))
+    return ops
+
+
+def view_scenarios(shapes, L, depth, seed, per_len=400):
+    """view-of-view paths up to `depth`: depth-1 exhaustive, deeper paths sampled by seed; every mutable
+    path is also run with a final write at every position/leaf"""
+    rng = random.Random(seed)
+    out = []
+    for sh in shapes:
+        nl = NLEAVES[sh]
+        for n in range(L + 1):
+            lines = [setup(n)]
+            for mode, start in (("shared", "as_slice"), ("mut", "as_mut_slice")):
+                mutable = mode == "mut"
+                paths = [([], n)]
+                # exhaustive depth 1
+                level1 = [([op], ln) for op, ln in view_ops_for(n, mutable)]
+                chosen = list(level1)
+                frontier = [p for p in level1 if p[1] is not None]
+                for d in range(2, depth + 1):
+                    nxt = []
+                    for path, ln in frontier:
+                        is_shared_now = (not mutable) or any(t in ("as_ref", "as_slice") for t in path)
+                        for op, l2 in view_ops_for(ln, mutable and not is_shared_now):
+                            nxt.append((path + [op], l2))
+                    rng.shuffle(nxt)
+                    nxt = nxt[:per_len]
+                    chosen += nxt
+                    frontier = [p for p in nxt if p[1] is not None]
+                for path, ln in paths + chosen:
+                    lines.append(f"view r0 {mode} {start} " + " ".join(path))
+                    is_shared = (not mutable) or any(t in ("as_ref", "as_slice") for t in path)
+                    if mutable and not is_shared:
+                        last = path[-1] if path else ""
+                        elem_terminal = last.endswith(":elem") or last.split(":")[0] in ("first", "last", "get", "idx")
+                        if elem_terminal:
+                            lines.append(f"viewmut r0 mut {start} " + " ".join(path) + f" write:0:{rng.randrange(nl)}:{rng.randrange(32)}")
+                        elif ln is not None:
+                            for pos in range(ln + 1):
+                                lines.append(f"viewmut r0 mut {start} " + " ".join(path) + f" write:{pos}:{rng.randrange(nl)}:{rng.randrange(32)}")
+            # sub-slices taken directly from the vector
+            for a in range(n + 2):
+                for b in range(n + 2):
+                    lines.append(f"view r0 shared slice:{a}:{b}")
+                    lines.append(f"view r0 mut slice_mut:{a}:{b}")
+                    if a <= b <= n and b > a:
+                        lines.append(f"viewmut r0 mut slice_mut:{a}:{b} write:0:{rng.randrange(nl)}:{rng.randrange(32)}")
+            out.append(Scenario(sh, lines, "views"))
+    return out
+
+
+# ------------------------------------------------------------------ iterators (C06)
+
+ITER_SOURCES = ["vec.iter", "vec.for", "slice.iter", "slice.into_iter", "slice.trait", "slice.for_ref", "slicemut.iter"]
+ITERMUT_SOURCES = ["vec.iter_mut", "vec.for_mut", "slicemut.iter_mut", "slicemut.into_iter", "slicemut.trait"]
+
+
+def iter_scenarios(shapes, L):
+    """all front/back interleavings until exhaustion and two steps past it, len and size_hint after every step"""
+    out = []
+    for sh in shapes:
+        for n in range(L + 1):
+            lines = [setup(n)]
+            for steps in itertools.product("FB", repeat=n + 2):
+                st = "LH" + "".join(c + "LH" for c in steps)
+                for src in ITER_SOURCES:
+                    lines.append(f"iter r0 {src} {st}")
+            out.append(Scenario(sh, lines, "iter"))
+            # mutable iteration writes: a fresh container per run (the writes change it)
+            for k, steps in enumerate(itertools.product("FB", repeat=n + 2)):
+                src = ITERMUT_SOURCES[k % len(ITERMUT_SOURCES)]
+                st = "".join(c + "L" for c in steps)
+                out.append(Scenario(sh, [setup(n), f"itermut r0 {src} {st}", "len r0"], "itermut"))
+    return out
+
+
+# ------------------------------------------------------------------ sorting (C07)
+
+SORT_ENTRIES = ["sort", "sort_by", "sort_by_key", "tsm_sort_by", "tsm_sort_by_key", "tvec_sort_by", "tvec_sort_by_key"]
+
+
+def sort_scenarios(shapes, L, seed, nrandom=40, max_random_len=200):
+    rng = random.Random(seed)
+    out = []
+    for sh in shapes:
+        # exhaustive key assignments with ties (keys 0..2) over lengths 0..=L: tag = key + 4 * position
+        for n in range(L + 1):
+            for keys in itertools.product(range(3), repeat=n):
+                ts = [k + 4 * i for i, k in enumerate(keys)]
+                entry = SORT_ENTRIES[(sum(keys) + n) % len(SORT_ENTRIES)]
+                lines = [f"collect r0 {tl(ts)}", f"sort r0 {entry} mod=4"]
+                out.append(Scenario(sh, lines, "sort-keys"))
+            # every entry point at this length, on one tie-heavy assignment and one reversed
+            for entry in SORT_ENTRIES:
+                ts = [(n - 1 - i) % 3 + 4 * i for i in range(n)]
+                out.append(Scenario(sh, [f"collect r0 {tl(ts)}", f"sort r0 {entry} mod=4", f"sort r0 {entry} mod=2"], "sort-entry"))
+            # all permutations of 0..n as index lists (n <= L), through both apply_index entry points
+            if n <= 6:
+                perms = list(itertools.permutations(range(n)))
+                if len(perms) > 130: perms = rng.sample(perms, 130) + [tuple(range(n)), tuple(reversed(range(n)))]
+                for via in ("vec", "slicemut"):
+                    lines = [setup(n)]
+                    for p in perms:
+                        lines.append(f"apply_index r0 {via} {tl(p)}")
+                    out.append(Scenario(sh, lines, "apply_index"))
+            # sub-slice sorting leaves the rest alone
+            for a in range(n + 1):
+                for b in range(a, n + 1):
+                    ts = [(7 * i + 3) % 32 for i in range(n)]
+                    out.append(Scenario(sh, [f"collect r0 {tl(ts)}", f"sort r0 sort_by_key mod=3 range={a}:{b}", f"sort r0 sort range={a}:{b}"], "sort-range"))
+    # random keys up to length 200 (tags < 32, so ties abound)
+    for k in range(nrandom):
+        sh = shapes[k % len(shapes)]
+        n = rng.choice([7, 16, 33, 64, 100, max_random_len])
+        ts = [rng.randrange(32) for _ in range(n)]
+        entry = SORT_ENTRIES[k % len(SORT_ENTRIES)]
+        out.append(Scenario(sh, [f"collect r0 {tl(ts)}", f"sort r0 {entry} mod={rng.choice([2, 3, 5, 8])}", f"sort r0 sort"], "sort-random"))
+    return out
+
+
+# ------------------------------------------------------------------ pointer bundles (C10)
+
+def ptr_scenarios(shapes, L):
+    out = []
+    for sh in shapes:
+        for n in range(L + 1):
+            lines = [setup(n)]
+            srcs = [("vec", "const", 0), ("vec", "mut", 0), ("slice", "const", 0), ("slicemut", "const", 0), ("slicemut", "mut", 0)]
+            for i in range(n):
+                srcs += [(f"ref:{i}", "const", i), (f"refmut:{i}", "const", i), (f"refmut:{i}", "mut", i)]
+            for src, cm, base in srcs:
+                lines.append(f"ptr r0 {src} {cm} is_null")
+                for target in range(n + 1):
+                    d = target - base
+                    fams = [[f"add:{d}"] if d >= 0 else [f"sub:{-d}"], [f"offset:{d}"], [f"wadd:{d}"] if d >= 0 else [f"wsub:{-d}"], [f"woffset:{d}"],
+                            [f"add:{n - base}", f"sub:{n - target}"], [f"wadd:{n + 5}", f"wsub:{n + 5 - d}"] if n + 5 - d >= 0 else [f"woffset:{d}"]]
+                    for fam in fams:
+                        st = " ".join(fam)
+                        lines.append(f"ptr r0 {src} {cm} {st}")
+                        if target < n:
+                            for rd in ("read", "read_volatile", "read_unaligned", "as_ref"):
+                                lines.append(f"ptr r0 {src} {cm} {st} {rd}")
+                    if target < n:
+                        if cm == "const":
+                            lines.append(f"ptr r0 {src} const offset:{d} as_mut_ptr as_ref")
+                        else:
+                            lines.append(f"ptr r0 {src} mut offset:{d} as_ptr read")
+                            lines.append(f"ptr r0 {src} mut offset:{d} as_mut")
+                for j in range(NLEAVES[sh]):
+                    lines.append(f"ptr r0 {src} {cm} null:{j} is_null")
+                    lines.append(f"ptr r0 {src} {cm} null:{j} as_ref")
+            out.append(Scenario(sh, lines, "ptr-read"))
+            # writes and round trips: fresh container each
+            for target in range(n):
+                for k, wr in enumerate(("write", "write_volatile", "write_unaligned")):
+                    src = ["vec", "slicemut", f"refmut:{target}"][k % 3]
+                    d = 0 if src.startswith("refmut") else target
+                    out.append(Scenario(sh, [setup(n), f"ptrw r0 {src} mut add:{d} {wr}:{20 + k}", f"ptrw r0 vec mut add:{target} as_mut:{target % NLEAVES[sh]}:{25}", "len r0"], "ptr-write"))
+            for kind in ("vec", "slice", "slicemut"):
+                out.append(Scenario(sh, [setup(n), "push r0 30", "pop r0", f"roundtrip r0 {kind}", "push r0 31", "len r0"], "roundtrip"))
+    return out
+
+
+# ------------------------------------------------------------------ element references (C15)
+
+def refs_scenarios(shapes, L):
+    out = []
+    for sh in shapes:
+        nl = NLEAVES[sh]
+        for n in range(L + 1):
+            lines = [setup(n), setup(2, "r1", 20)]
+            for t in (0, 7, 31):
+                lines.append(f"refs r0 value_as_ref {t}")
+                for leaf in range(nl):
+                    lines.append(f"refs r0 value_as_mut {t} {leaf} {(t + 5) % 32}")
+            for i in range(n):
+                for what in ("to_owned", "from", "from_ref", "mut_to_owned", "from_mut", "from_mut_ref"):
+                    lines.append(f"refs r0 {what} {i}")
+            if sh not in NOCLONE:
+                lines += ["extend_refs r1 r0", "len r1"]
+            out.append(Scenario(sh, lines, "refs"))
+            for i in range(n + 1):
+                out.append(Scenario(sh, [setup(n), f"refreplace r0 {i} 25", "len r0"] if i < n else [setup(n), "len r0"], "refreplace"))
+    return out
+
+
+# ------------------------------------------------------------------ mutable-slice API with invalid arguments (C02)
+
+def slicemut_invalid(shapes, L, seed):
+    """swap / apply_index / sort* / writes with valid and invalid arguments, caught and continued"""
+    rng = random.Random(seed)
+    out = []
+    for sh in shapes:
+        for n in range(L + 1):
+            base = [setup(n)]
+            for a in boundary(n)[:n + 3] + [MAX]:
+                for b in (0, n - 1 if n else 0, n, MAX):
+                    out.append(Scenario(sh, base + [f"swap r0 {a} {b}", "len r0"], "swap"))
+            # index lists that are not permutations of 0..n: duplicates, out of range, wrong length
+            cands = set()
+            for _ in range(12):
+                cands.add(tuple(rng.randrange(n + 1) for _ in range(n)))
+                cands.add(tuple(rng.randrange(max(n, 1)) for _ in range(n)))
+            cands.add(tuple(range(n + 1))); cands.add(tuple(range(max(n - 1, 0)))); cands.add(tuple([0] * n)); cands.add(tuple(reversed(range(n))))
+            for via in ("vec", "slicemut"):
+                for c in sorted(cands):
+                    out.append(Scenario(sh, base + [f"apply_index r0 {via} {tl(c)}", "len r0", "push r0 30"], "apply_index"))
+            for entry in SORT_ENTRIES[:3]:
+                out.append(Scenario(sh, base + [f"sort r0 {entry} mod=3 range={n}:{n + 1}", f"sort r0 {entry} mod=3 range=1:0", "len r0"], "sort-invalid-range"))
+    return out
